@@ -63,14 +63,14 @@ def extrap_model():
     return Model(fn, "extrap(uninterpreted)")
 
 
-def _setup(c):
+def _setup(c, dtype="float"):
     N, ptr = c.int("N"), c.int("ptr")
     dt, s, tau = c.real("dt"), c.real("s"), c.real("tau")
     off = c.int("off")
     c.require(N >= 1, 0 <= ptr, ptr < N, dt > 0, tau >= 0)
     # stated quantifier domain: offsets within two record lengths, tolerance at most the record duration
     c.require(off >= -2 * N, off <= 2 * N, tau <= z3.ToReal(N.z))
-    r = Rec(c, N, ptr, "float", dt=dt)
+    r = Rec(c, N, ptr, dtype, dt=dt)
     return N, ptr, dt, s, tau, off, r
 
 
@@ -98,6 +98,44 @@ def select_scalar(c):
     c.ensure("off_grid_interpolates", z3.Implies(z3.Not(on), v.f == I_UF(r.M0(off.z + cl), r.M0(off.z + fl), sample_at, dt.z)))
     c.ensure("frame", z3.And(r.ptr == ptr, not r.owner.writes))
     c.canary("canary_always_exact", v.f == r.M0(off.z + rr))
+
+
+def _mk_select_nonfloat(dtype):
+    @contract(P, f"RecordTensor.select[scalar, {dtype} record]", [(INF, "RecordTensor.select"), ("inferno/core/tensor.py", "fullc")], min_obligations=3)
+    def select_scalar_nf(c, dtype=dtype):
+        """records of integer / boolean observations (spike records are boolean): the elapsed time handed to the
+        interpolation is a floating-point tensor holding the exact off-grid time, whatever the record's own data type"""
+        N, ptr, dt, s, tau, off, r = _setup(c, dtype)
+        t = dt * s
+        seen = []
+        base = interp_model()
+
+        def fn(interp, prev, nxt, sample_at, step, **kw):
+            seen.append(sample_at)
+            return interp.call(base, [prev, nxt, sample_at, step], kw)
+
+        out = c.outcome(r.method("select"), t, Model(fn, "interp(uninterpreted, logging)"), tolerance=dt * tau, offset=off)
+        rr, on, in_range, cl, fl = _spec_pieces(N, s, tau)
+        if out.raised:
+            c.ensure("rejects_only_out_of_range", z3.And(out.raised == "ValueError", z3.Not(in_range)))
+            return
+        c.ensure("accepts_only_in_range", in_range)
+        v = out.value
+        as_r = lambda z: z3.If(z, z3.RealVal(1), z3.RealVal(0)) if z3.is_bool(z) else (z3.ToReal(z) if z3.is_int(z) else z)  # noqa: E731
+        c.ensure("on_grid_exact", z3.Implies(on, as_r(v.f) == as_r(r.M0(off.z + rr))))
+        if seen:
+            sa = seen[0]
+            c.ensure("elapsed_time_is_a_floating_point_tensor", sa.dtype == "float")
+            exact = dt.z * z3.ToReal(cl) - dt.z * s.z
+            c.ensure("elapsed_time_is_exact", z3.Implies(z3.Not(on), as_r(sa.f if sa.tlen is None else sa.f(z3.IntVal(0))) == exact))
+        c.ensure("frame", z3.And(r.ptr == ptr, not r.owner.writes))
+        c.canary("canary_always_exact", as_r(v.f) == as_r(r.M0(off.z + rr)))
+
+    return select_scalar_nf
+
+
+_mk_select_nonfloat("int")
+_mk_select_nonfloat("bool")
 
 
 def _select_tensor(c, layouts):
@@ -344,6 +382,7 @@ def default_offset(c):
 
 
 MUTANTS = [
+    dict(file="inferno/core/tensor.py", func="fullc", old="            if tensor.is_floating_point() or tensor.is_complex()", new="            if tensor.is_floating_point() or not tensor.is_complex()", contracts=["RecordTensor.select[scalar, int record]", "RecordTensor.select[scalar, bool record]"], name="seed C02f: the elapsed-time tensor takes the data type of an integer / boolean record"),
     dict(file=FE, func="extrap_linear_forward", old="    prev_data = adjust(prev_data) if adjust else prev_data\n    slope = (sample - prev_data) / sample_at", new="    slope = (sample - prev_data) / sample_at\n    prev_data = adjust(prev_data) if adjust else prev_data", contracts=["pair[extrap_linear_forward,interp_linear][adjust]"], name="seed C02e: slope taken from the unadjusted older endpoint"),
     dict(file=FE, func="extrap_linear_backward", old="    next_data = adjust(next_data) if adjust else next_data\n    slope = (next_data - sample) / (step_time - sample_at)", new="    slope = (next_data - sample) / (step_time - sample_at)\n    next_data = adjust(next_data) if adjust else next_data", contracts=["pair[extrap_linear_backward,interp_linear][adjust]"], name="seed C20e: slope taken from the unadjusted newer endpoint"),
     dict(file=_F, func="RecordTensor.select", old="        offset: int = 1,\n        interp_kwargs", new="        offset: int = 0,\n        interp_kwargs", contracts=["RecordTensor.select/insert[default offset]"], name="select: default offset changed"),
